@@ -165,7 +165,41 @@ class _ReviewedAxioms(ast.NodeTransformer):
         return n
 
 
-def compare(repo: Repo, sigs, s_node, a_node):
+def _is_extension_wrapper(fn_node) -> bool:
+    import copy as _copy
+
+    n = _copy.deepcopy(fn_node)
+    wrapper = ast.Module(body=[n], type_ignores=[])
+    holder = ast.FunctionDef(name="_h", args=ast.arguments(posonlyargs=[], args=[], kwonlyargs=[], kw_defaults=[], defaults=[]), body=[n, ast.Pass()], decorator_list=[], lineno=1, col_offset=0)
+    sib._drop_extension_points(n)
+    body = [x for x in n.body if not (isinstance(x, ast.Expr) and isinstance(x.value, ast.Constant))]
+    if not (n.name.startswith("_") and len(body) == 1 and isinstance(body[0], ast.Return) and body[0].value is not None):
+        return False
+    params = {a.arg for a in n.args.args}
+    free = {x.id for x in ast.walk(body[0].value) if isinstance(x, ast.Name)} - params
+    return not free and not any(isinstance(x, ast.Await) for x in ast.walk(body[0].value))
+
+
+def _hoist_module_helpers(fn_node, module) -> None:
+    """private module-level helpers called by name become nested defs of the function, so that the
+    normaliser treats them exactly like the nested helpers it already inlines"""
+    import copy as _copy
+
+    if module is None:
+        return
+    nested = {st.name for st in fn_node.body if isinstance(st, (ast.FunctionDef, ast.AsyncFunctionDef))}
+    add = []
+    for c in ast.walk(fn_node):
+        if isinstance(c, ast.Call) and isinstance(c.func, ast.Name) and c.func.id.startswith("_") and c.func.id in module.functions and c.func.id not in nested:
+            h = module.functions[c.func.id].node
+            if _is_extension_wrapper(h):
+                nested.add(c.func.id)
+                add.append(_copy.deepcopy(h))
+    doc = 1 if fn_node.body and isinstance(fn_node.body[0], ast.Expr) and isinstance(fn_node.body[0].value, ast.Constant) else 0
+    fn_node.body[doc:doc] = add
+
+
+def compare(repo: Repo, sigs, s_node, a_node, module=None):
     import copy as _copy
 
     gen_s, gen_a = sib.is_generator(s_node), sib.is_generator(a_node)
@@ -173,6 +207,8 @@ def compare(repo: Repo, sigs, s_node, a_node):
     a1 = _string_literal_axiom_holds(repo)
     s_node = _ReviewedAxioms(a1).visit(_copy.deepcopy(s_node))
     a_node = _ReviewedAxioms(a1).visit(_copy.deepcopy(a_node))
+    _hoist_module_helpers(s_node, module)
+    _hoist_module_helpers(a_node, module)
     ast.fix_missing_locations(s_node)
     ast.fix_missing_locations(a_node)
     ns = sib.dump(sib.normal_form(s_node, gen_pair, sigs))
@@ -201,6 +237,13 @@ def run(repo: Repo) -> Result:
     for a, s in pairs(repo):
         construct = a.qual
         res.ob(construct)
+        if s is None and _is_extension_wrapper(a.node):
+            # a private async helper that, with the optional async data protocols absent
+            # (SIB-EXT), is just `return <expression over its parameters>`: its sync counterpart
+            # is that expression, written in place by the sync twin of its caller — compared
+            # there, after inlining (see `compare`)
+            res.sample({"pair": a.qual, "verdict": "extension-point wrapper; inlined into its callers"})
+            continue
         if s is None:
             res.add(
                 "SIB-ORPHAN",
@@ -231,7 +274,7 @@ def run(repo: Repo) -> Result:
             n_deleg += 1
             res.sample({"pair": a.qual, "verdict": "delegation form"})
             continue
-        ns, na = compare(repo, sigs, s.node, a.node)
+        ns, na = compare(repo, sigs, s.node, a.node, module=a.module)
         if ns == na:
             n_same += 1
             res.sample({"pair": a.qual, "verdict": "identical normal forms", "nf_digest": sib.digest(ns)})
